@@ -159,6 +159,7 @@ func init() {
 		// what ends or begins in one session must not touch another one's registration
 		partGated(c, a, []func(*sut.Proc) *e2.Result{e2.G3LateUnregister, e2.G3cLastLeaveVsCreate}, c.Pick(1, 4))
 		partStepThrough(c, a, []string{"lastleave", "create"})
+		partSwitchPending(c, a) // nothing of a member survives in the session it left by switching
 		return a.finish(c)
 	}
 	registry["C17"] = checkC17
@@ -273,6 +274,7 @@ func checkC17(c *check.Ctx) int {
 	c.Coverage["distinct_flag_sets_nontrivial"] = len(subsets)
 	c.Coverage["windows_compared"] = compared
 	c.Coverage["events_removed_by_flag_filter"] = suppressed
+	partFlagScript(c, a, bin)
 	partFlagsRealBinary(c, a)
 	partRegistryUnderFlags(c, a)
 	a.add(done, nontrivial, "E5: one recorded sequential history is executed without flags and again under a flag set (lab SUT, flags per connection); every per-step window under flags must equal the flag-free window minus the classes named by the set flags, and both runs are judged by the flag-aware reference model (state via a flag-free probe); a flag set is distinct by its members and non-trivial when at least one message was actually suppressed and at least one unsuppressed message was still delivered (unknown-name sets: nothing suppressed, something delivered)", samples...)
@@ -543,4 +545,64 @@ func partRegistryUnderFlags(c *check.Ctx, a *acc) {
 	c.Coverage["registry_races_under_all_flags_join_accepted"] = accepted
 	a.add(done, done, "registry under flags: the gated join / last-departure / creation overlaps and the free-running join-by-id x last-departure race storm with all ten DISABLE_* flags set on the racing connections (probes flag-free): join answers, findability, gauge and frame workers must be what they are without flags",
 		map[string]any{"engine": "E2 registry under flags", "races": races, "joins_accepted": accepted})
+}
+
+// partFlagScript: the directed departure script (e1.DepartureScript) without
+// flags and under flag sets - the bookkeeping of a departure (subscriptions,
+// entities, attachments) does not depend on the flags the leaver carries.
+func partFlagScript(c *check.Ctx, a *acc, bin string) {
+	type job struct {
+		flags   []string
+		variant int
+	}
+	var jobs []job
+	if c.Quick() {
+		jobs = append(jobs, job{nil, int(c.Seed) % 4})
+		for i := range allFlags {
+			jobs = append(jobs, job{flagSubset(1 << i), (i + int(c.Seed)) % 4})
+		}
+		jobs = append(jobs, job{flagSubset(1023), 0}, job{flagSubset(1023), 1})
+		x := uint64(c.Seed)*6364136223846793005 + 99
+		for i := 0; i < 8; i++ {
+			x = x*6364136223846793005 + 1442695040888963407
+			jobs = append(jobs, job{flagSubset(int(x>>33) % 1024), i % 4})
+		}
+	} else {
+		for m := 0; m < 1024; m++ {
+			jobs = append(jobs, job{flagSubset(m), m % 4}, job{flagSubset(m), (m + 1) % 4})
+		}
+	}
+	var mu sync.Mutex
+	done, nontrivial, compared, suppressed := 0, 0, 0, 0
+	parallel(len(jobs), 16, func(i int) {
+		j := jobs[i]
+		cfg := e1.Config{Seed: c.Seed, MaxConns: 4, MaxSess: 2, Mods: "vod", CheckEvery: 5, Avoid: avoidList()}
+		res := e1.FlagDiffScript(c.WS, bin, sut.LabOpts{Frame: 2 * time.Millisecond, Name: "flagscript"}, cfg, j.flags, e1.DepartureScript(j.variant))
+		mu.Lock()
+		defer mu.Unlock()
+		done++
+		if res.Fail != nil {
+			fd := diffFinding(res.Fail, "E5 flag differential, departure script")
+			fd.Trigger = "script/" + strings.Join(j.flags, "+")
+			if !fd.Concerns("C17") {
+				fd.Props = append(fd.Props, "C17")
+			}
+			c.Report(fd)
+			return
+		}
+		if res.Inconclusive != "" {
+			c.Inconc(res.Inconclusive)
+			return
+		}
+		compared += res.Compared
+		suppressed += res.Suppressed
+		if len(j.flags) == 0 || res.Suppressed > 0 {
+			nontrivial++
+		}
+	})
+	c.Coverage["flag_script_runs"] = done
+	c.Coverage["flag_script_windows_compared"] = compared
+	c.Coverage["flag_script_events_removed_by_flag_filter"] = suppressed
+	a.add(done, nontrivial, "E5 departure script: a directed history in which every suppressible class occurs and the sole subscriber of a component type leaves (close, reset or session switch) before components of that type are added and deleted in front of a bystander, owners with attachments leave and a newcomer is handed the state; run without flags and under a flag set, compared window by window and judged by the flag-aware model; non-trivial when the flag set suppressed something",
+		map[string]any{"engine": "E5 flag differential, departure script", "runs": done, "windows_compared": compared})
 }
